@@ -18,7 +18,7 @@ func c17(c *core.Ctx) map[string]interface{} {
 	r11sibX(c)
 	r17snssai(c)
 	r17amf(c)
-	r17ip(c)
+	r17ipX(c)
 	r17pco(c)
 	r17snssaiCtor(c)
 	r9acc(c)
